@@ -258,7 +258,7 @@ static void sweep_long_names(long item)
 static void random_case(void)
 {
         w_begin();
-        size_t ng = 1 + rn(3);
+        size_t ng = chance(15) ? 4 + rn(MAXGRP - 5) : 1 + rn(3);          /* up to 14 groups (plus the noise group) */
         size_t ncmd = chance(15) ? ng + rn(300 - (unsigned)ng) : chance(50) ? ng + rn(12) : ng + rn(60);
         size_t per[MAXGRP] = { 0 };
         for (size_t g = 0; g < ng; g++) per[g] = 1;
